@@ -142,6 +142,28 @@ def tie_theorem_names(targets, tier):
     return [f"C37_{t.name}_{tag}_meets_spec" for t in targets if t.kind == "stub" for tag, _, _ in r_alphabets(t, tier)]
 
 
-LEVEL_TEXT = "in progress"
-LEVEL_NOTE = "in progress"
-TECHNIQUE = "in progress"
+LEVEL_TEXT = (
+    "Machine-checked proof (Rocq), safety part of the property. (1) C37_raw_receiver_verdict: for every sink history and every "
+    "expected-sequence history the RawHeaderPacketReceiver model reports, cycle by cycle, exactly what the declarative specification "
+    "says: a header = HPSTART + the next four valid words; good iff CRC-5 and CRC-16 equal the standard bit-serial CRCs (Model/Crc.v, tied "
+    "to LUNA's equations by C30) and, for acceptance, its sequence number equals the expected one. (2) C37_bookkeeping_meets_spec, for every "
+    "buffer count n = 2^pw (pw <= 4), sequence width sw <= 4 and every input trace (header events, queue.ready, retry, source.ready stalls, "
+    "keepalive/LXU/LRTY requests): the HeaderPacketReceiver bookkeeping model is accepted by the specification monitor sp_mon -- the queue offers "
+    "exactly the oldest accepted-and-not-yet-taken header (each accepted header once, in order); a header is accepted iff good, in sequence and no "
+    "corrupted header is outstanding (ignored until retry_received); every LGOOD is owed and carries the next sequence number (k-th accepted header "
+    "<-> LGOOD of its number, after the advertisement); every LCRD is owed (one per buffer at link entry, one per header taken) with indices A,B,C,D "
+    "in order, so partner credits + buffered + owed = n; every LBAD is owed. (3) C37_receiver_meets_spec: the composition raw receiver + bookkeeping "
+    "against the sink-level specification (parser + verdict + monitor). (4) Ties: the netlist regenerated from /repo of HeaderPacketReceiver's "
+    "bookkeeping (shrunk configuration, see assumptions) is proved equal to the model in lock step on all traces over explicit input alphabets "
+    "(certified product reachability), giving netlist |= sp_mon; the unmodified RawHeaderPacketReceiver and HeaderPacketReceiver(4) are compared with "
+    "the models and checked by the specification monitors on simulator traces (correspondence, not proof).")
+LEVEL_NOTE = (
+    "Safety only: that an owed LGOOD/LCRD/LBAD is eventually sent is not proved (needs fairness of source.ready). Scope U0 (enable high, no reset): the model "
+    "is the C38-corrected behaviour, which coincides with the code as found while the link stays up. Partner assumptions (credit rule, at most n un-acknowledged "
+    "headers) are part of the monitor (vacuous after a violation). R ties: buffer_count 1 (quick) / 1 and 2 (thorough) with a stubbed raw receiver and 1-bit headers, "
+    "per listed alphabet; real configuration (n = 4, 128-bit headers, real CRCs) by correspondence + runtime oracle only. buffer_count not a power of two is outside "
+    "the theorems (the code's pointers wrap at 2^pw). Trusted: Coq kernel + vm_compute, Amaranth elaboration, nir2coq/Netlist.v (validated every run against the simulator), "
+    "harness/nir_split.py (self-dependent assignment split, validated the same way).")
+TECHNIQUE = ("Rocq proof: invariant / simulation of a code-shaped parametric model against a small specification monitor (FIFO of accepted headers, owed LGOOD/LCRD/LBAD, "
+             "partner credits); declarative packet parser related to the receive FSM; certified product-reachability lock-step against the regenerated netlist; "
+             "specification monitors as runtime oracles over simulator traces")
